@@ -49,6 +49,9 @@ CLAIMED = {
  "C03": ("corr-sched", "Lean 4 theorems on the data-flow operations of the model (buffer, merge, cache lookup) + reply-by-reply correspondence (the inputs of every step call are compared) + history-specification monitor on implementation traces",
          "Theorems (building blocks, all inputs): a pushed value stays buffered exactly until the first step at or after its due time and is removed by it (not lost, not duplicated), is in that step's inputs under its own key, undue or foreign keys are untouched (nothing invented or early), set_data wins over remembered values, persistent memory only updates existing keys, pulled values are the newest cache entry at or before (t - shift). PARTIAL: the refinement of whole runs to the history specification is not a theorem; it is decided by the specification monitor on the implementation (silent on the clean class) and by the correspondence. Five scenario classes are known findings.",
          "Same hypotheses as C01. Known findings: C03-cache-prune-shift (D8), C03-cache-initial-data (D12), C03-subtier-blind (D14), C03-event-with-init, C03-nonmonotone-output-times; each is replayed on the code on every run. Partial as stated."),
+ "C16": ("corr-sched", "Lean 4 theorems (admission decision logic, storage/delivery/clearing of set_data values, ordering from the dependency guard) + reply-by-reply correspondence with in-step set_data/get_data calls + monitor on implementation traces",
+         "Theorems: a request is refused with the ScenarioError iff there is no async connection; an accepted set_data is stored with the target, is in the inputs of the target's next step (precedence over remembered values) and is cleared by it (exactly once); when A begins t every agent B has progressed to t, so A never begins a later step while B's step is in flight. The data path of an asynchronous get_data is not modelled (admission only).",
+         "Same hypotheses as C01. Assumes no ordinary connection feeds the same key as a set_data call. Trusted: Lean kernel, correspondence harness."),
 }
 
 NOT_YET = {
